@@ -7,6 +7,7 @@ import (
 	"fmt"
 	"math"
 	"math/big"
+	"reflect"
 	"sort"
 	"strings"
 
@@ -171,7 +172,40 @@ func sliceCodec(c *Ctx) {
 	nestedBig := false // a Go integer beyond 2^53 inside a container value (not converted to float64 by the client)
 	var rVal func(depth int) (interface{}, bool)
 	rVal = func(depth int) (interface{}, bool) {
-		switch k := rng.Intn(22); k {
+		switch k := rng.Intn(24); k {
+		case 22, 23: // a pointer to an integer of any width
+			switch rng.Intn(10) {
+			case 0:
+				v := int(rng.Intn(1 << 30))
+				return &v, false
+			case 1:
+				v := int8(rng.Intn(256) - 128)
+				return &v, false
+			case 2:
+				v := int16(rng.Intn(65536) - 32768)
+				return &v, false
+			case 3:
+				v := int32(rng.Uint32())
+				return &v, false
+			case 4:
+				v := uint(rng.Uint32())
+				return &v, false
+			case 5:
+				v := uint8(rng.Intn(256))
+				return &v, false
+			case 6:
+				v := uint16(rng.Intn(65536))
+				return &v, false
+			case 7:
+				v := uint32(rng.Uint32())
+				return &v, false
+			case 8:
+				v := float32(rng.Intn(1 << 20))
+				return &v, false
+			default:
+				v := rng.Intn(2) == 0
+				return &v, false
+			}
 		case 0:
 			return int(rng.Int63n(1<<40) - 1<<39), false
 		case 1:
@@ -273,7 +307,30 @@ func sliceCodec(c *Ctx) {
 	for i := 0; i < n; i++ {
 		nontriv := false
 		nestedBig = false
-		conv := func(raw interface{}) interface{} { return types.ConvertToJSONSupportedValue(raw) }
+		conv := func(raw interface{}) interface{} {
+			v := types.ConvertToJSONSupportedValue(raw)
+			// the sender executes with v, everybody else with what decoding yields: a scalar (of any Go width, or a
+			// pointer to one) must already be the plain JSON scalar here
+			rk := reflect.ValueOf(raw)
+			for rk.Kind() == reflect.Ptr {
+				rk = rk.Elem()
+			}
+			switch rk.Kind() {
+			case reflect.Int, reflect.Int8, reflect.Int16, reflect.Int32, reflect.Int64, reflect.Uint, reflect.Uint8, reflect.Uint16, reflect.Uint32, reflect.Uint64, reflect.Float32, reflect.Float64:
+				if _, ok := v.(float64); !ok {
+					c.Violate("C14", "scalar-not-normalised", fmt.Sprintf("a value of Go type %T is kept as %T in the operation body: the sender executes with it while every receiver decodes a float64", raw, v), fmt.Sprintf("%T", raw))
+				}
+			case reflect.String:
+				if _, ok := v.(string); !ok {
+					c.Violate("C14", "scalar-not-normalised", fmt.Sprintf("a value of Go type %T is kept as %T in the operation body", raw, v), fmt.Sprintf("%T", raw))
+				}
+			case reflect.Bool:
+				if _, ok := v.(bool); !ok {
+					c.Violate("C14", "scalar-not-normalised", fmt.Sprintf("a value of Go type %T is kept as %T in the operation body", raw, v), fmt.Sprintf("%T", raw))
+				}
+			}
+			return v
+		}
 		vals := func() ([]interface{}, string) {
 			var l []interface{}
 			var g []string
